@@ -138,6 +138,19 @@ def chk_cartesian(inp):
                 tol = 0.05 * abs(pol).max()
                 if numpy.any((kl[i] < lo - tol)[inside]) or numpy.any((kl[i] > hi + tol)[inside]):
                     return bad("Cartesian mode %d does not follow the polar function at each pixel's (r, theta) within the neighbouring polar cells (dim=%d)" % (i, dim))
+                # ... and to within the resampling error everywhere, the cells next to theta = 2 pi included: the polar function evaluated at the pixel's
+                # (r, theta) by bilinear interpolation with a PERIODIC azimuth (radial samples at (k + 1/16) d, as gkl_radii places them)
+                crf = (R2 - ri ** 2) / (1 - ri ** 2) * nr - 1. / 16
+                cpf = tt / (2 * numpy.pi) * npp
+                k0 = numpy.clip(numpy.floor(crf).astype(int), 0, nr - 2); fr = numpy.clip(crf - k0, 0, 1)
+                p0 = numpy.floor(cpf).astype(int) % npp; fp = cpf - numpy.floor(cpf); p1 = (p0 + 1) % npp
+                ref = (1 - fr) * ((1 - fp) * pol[k0, p0] + fp * pol[k0, p1]) + fr * ((1 - fp) * pol[k0 + 1, p0] + fp * pol[k0 + 1, p1])
+                err = abs(kl[i] - ref)[inside]
+                # measured on the unchanged tree: maximum 0.7 % of the mode's maximum, median 0.15 % (the 1/16-cell radial offset of the rendering)
+                if err.max() > 0.03 * abs(pol).max():
+                    w = numpy.argwhere(inside)[numpy.argmax(err)]
+                    return bad("Cartesian mode %d (dim=%d, ri=%g) differs from the polar function at pixel (%d, %d), theta = %.3f rad, by %.1f %% of the mode's maximum (median over the pupil %.2f %%)" % (
+                        i, dim, ri, w[0], w[1], float(tt[w[0], w[1]]), 100 * err.max() / abs(pol).max(), 100 * numpy.median(err) / abs(pol).max()), float(err.max() / abs(pol).max()), "< 0.03")
 
 
 one = lambda t, s: [{}]
